@@ -19,7 +19,7 @@ from . import c11
 SPEC = os.path.join(engine.VERIF, 'specs', 'evmframes')
 REF = c11.REF
 DOCUMENTED = {'budget', 'pfe'}
-FINDINGS = {'deposit', 'static', 'nonce0', 'frontier-create'}
+FINDINGS = {'deposit', 'nonce0', 'frontier-create'}
 
 
 def build(ctx):
@@ -147,7 +147,7 @@ def ret_top(q, size=None):
 def with_operands(opb, operands, q, tail=None, pre=b''):
     c = pre
     for x in reversed(operands):      # operands[0] ends on top of the stack
-        c += push(x)
+        c += x if isinstance(x, bytes) else push(x)
     c += bytes([opb])
     return c + (tail if tail is not None else ret_top(q))
 
@@ -160,7 +160,7 @@ INITREV = bytes.fromhex('60006000fd')                  # init code that reverts
 INITBAD = bytes.fromhex('fe')                          # init code that fails
 
 
-def gen_snippets(rng, per_op):
+def gen_snippets(rng, per_op, mode='ANN'):
     """-> list of (label, code bytes, calldata bytes)"""
     out = []
 
@@ -173,6 +173,8 @@ def gen_snippets(rng, per_op):
             add('UNDEFINED_%02x' % b, push(1) + push(2) + bytes([b]) + ret_top(1))
             continue
         name, pops, pushes = OPS[b]
+        if mode == 'APP' and name in ('CREATE', 'CREATE2'):
+            continue    # creation under the application's configuration: decided with the model (known findings nonce0 / frontier-create)
         # stack underflow
         if pops > 0 and not name.startswith(('DUP', 'SWAP')):
             add(name + ':underflow', with_operands(b, [7] * (pops - 1), pushes))
@@ -216,7 +218,7 @@ def gen_snippets(rng, per_op):
                 for off in (0, 3, 17, 18, 1000, 1 << 64):
                     add(name, with_operands(b, [a, 0, off, 32], 0, tail=push(64) + push(0) + op('RETURN'), pre=MEMFILL))
         elif name == 'RETURNDATACOPY':
-            call = push(0) + push(0) + push(32) + push(0) + push(0) + push(OTHER) + push(100000) + op('CALL') + op('POP')
+            call = push(0) + push(0) + push(32) + push(0) + push(0) + push(OTHER) + op('GAS') + op('CALL') + op('POP')
             for mem, off, ln in ((0, 0, 32), (0, 0, 0), (0, 1, 31), (0, 1, 32), (0, 32, 0), (0, 33, 0), (0, 0, 33), (5, 31, 1),
                                  (0, 1 << 64, 0), (0, M256, 1), (0, 0, 1 << 64), (0, M256, M256)):
                 add(name, with_operands(b, [mem, off, ln], 0, tail=push(64) + push(0) + op('RETURN'), pre=MEMFILL + call))
@@ -283,10 +285,12 @@ def gen_snippets(rng, per_op):
             add(name + ':huge', with_operands(b, [0, 1 << 64] + [1] * n, 0, tail=op('STOP')))
         elif name in ('CALL', 'CALLCODE', 'DELEGATECALL', 'STATICCALL'):
             hasv = name in ('CALL', 'CALLCODE')
-            for to in (OTHER, NOBODY, 4, 2, 6, 8, SELF & 0 or SENDER, 0xfe):
+            # gas argument = GAS (everything): a numeric gas limit would be enforced by the reference and ignored by the
+            # in-tree VM (documented deviation: budget instead of caller-supplied gas)
+            for to in (OTHER, NOBODY, 4, 2, 6, 8, SENDER, 0xfe):
                 for val in ((0, 1, 2000) if hasv else (0,)):
                     for insz, outsz in ((32, 32), (0, 0), (40, 10)):
-                        args = [50000, to] + ([val] if hasv else []) + [0, insz, 64, outsz]
+                        args = [op('GAS'), to] + ([val] if hasv else []) + [0, insz, 64, outsz]
                         label = name + (':to-fe-documented-deviation' if to == 0xfe else '')
                         add(label, with_operands(b, args, 1, tail=push(128) + op('MSTORE') + op('RETURNDATASIZE') + push(160) + op('MSTORE') +
                                                  push(1) + op('SLOAD') + push(192) + op('MSTORE') + push(224) + push(0) + op('RETURN'), pre=MEMFILL))
@@ -320,7 +324,7 @@ def gen_snippets(rng, per_op):
 
 
 def snippet_traces(rng, per_op, mode, chunk=400):
-    sn = gen_snippets(rng, per_op)
+    sn = gen_snippets(rng, per_op, mode)
     traces = []
     for i in range(0, len(sn), chunk):
         part = sn[i:i + chunk]
@@ -500,12 +504,14 @@ def run(ctx, replay=None):
         return
 
     quick = ctx.tier == 'quick'
-    W = 3 if quick else 5
+    W = 2 if quick else 4
     TO = 600 if quick else 3000
-    exh = ['core_ref', 'core_ann', 'core_app', 'crea_ref', 'crea_ann', 'crea_app', 'deep_ann', 'deep_ref']
-    sims = [(n, (60, 250) if quick else (700, 300)) for n in ('sim_ref_d', 'sim_ann_d', 'sim_app_d', 'sim_ref_t', 'sim_ann_t', 'sim_app_t')]
+    exh = ['core_ann', 'core_app', 'crea_ref', 'crea_app', 'deep_ann'] if quick else \
+        ['core_ref', 'core_ann', 'core_app', 'crea_ref', 'crea_ann', 'crea_app', 'deep_ann', 'deep_ref']
+    sims = [(n, (50, 250) if quick else (700, 300)) for n in (('sim_ref_d', 'sim_ann_d', 'sim_app_t', 'sim_ann_t') if quick else
+                                                              ('sim_ref_d', 'sim_ann_d', 'sim_app_d', 'sim_ref_t', 'sim_ann_t', 'sim_app_t'))]
     results = {}
-    with ThreadPoolExecutor(3 if quick else 4) as ex:
+    with ThreadPoolExecutor(5 if quick else 4) as ex:
         futs = {n: ex.submit(gen_programs, ctx, CONFIGS[n][0], None, None, W, TO) for n in exh}
         for n, (num, dp) in sims:
             futs[n] = ex.submit(gen_programs, ctx, CONFIGS[n][0], 'num=%d' % num, dp, W, TO)
@@ -527,9 +533,17 @@ def run(ctx, replay=None):
             cnt += 1
             traces.append(to_trace(p, n, cnt, sweep=(cnt % 7 == 0)))
         ctx.log('EVMFrames/%s: %s -> %d distinct programs' % (n, {k: v for k, v in r.summary().items() if k in ('generated', 'distinct', 'wall_s', 'ok')}, cnt))
-    if quick and len(traces) > 9000:
-        ctx.rng.shuffle(traces)
-        traces = traces[:9000]
+    if quick:
+        # quick tier: a seeded sample of each exhaustive set (the thorough tier runs them all; programs entered through the
+        # 1022-frame trampoline cost ~30 ms each), every simulated program
+        caps = {'core_ann': 800, 'core_app': 800, 'crea_ref': 600, 'crea_app': 800, 'deep_ann': 500}
+        by = {}
+        for t in traces:
+            by.setdefault(t['cfg']['gen'], []).append(t)
+        traces = []
+        for g in sorted(by):
+            ctx.rng.shuffle(by[g])
+            traces += by[g][:caps.get(g, len(by[g]))]
     rng = random.Random(ctx.seed)
     sn_traces, nsn = snippet_traces(rng, 2 if quick else 12, 'ANN')
     sn_app, nsn2 = snippet_traces(random.Random(ctx.seed + 1000), 1, 'APP')
